@@ -39,6 +39,7 @@ struct Model {
     int nprocs = 1;
     bool strict_coord = false;
     bool aggr_env = false;
+    bool safe_mode = false;   // PNETCDF_SAFE_MODE: argument errors of collective data calls are shared (every rank returns the smallest code)
     bool strict_iget_overlap = false;   // check the overlapped share of overlapping iget requests completed by one wait (known finding: kept for 10% of C02 seeds)
     std::vector<MFile> files;                 // file slots
     std::map<std::string, MFile> disk;        // closed files by path
